@@ -294,6 +294,9 @@ def _eq_samples():
                 for dtype, nodata in (("int16", -1), ("uint8", None), ("float32", None)) if thorough or name in ("aligned_shift", "partial_overlap", "disjoint") else (("int16", -1),):
                     for time_axis in (False, True) if name in ("aligned_shift", "partial_overlap") else (False,):
                         yield dict(dst=name, src_chunks=sch, dst_chunks=dch, dtype=dtype, nodata=nodata, time_axis=time_axis)
+        # several lazy reprojections of the SAME source evaluated in one graph must not interfere
+        for vary in ("dst_nodata", "src_nodata", "resampling", "dst_geobox", "chunks"):
+            yield dict(dst="partial_overlap", src_chunks=(7, 9), dst_chunks=(5, 6), dtype="int16", nodata=-1, time_axis=False, joint=vary)
 
     return "9 destination placements (identical, whole-pixel shift, sub-pixel, x2, x1/2, mirrored, partial overlap, disjoint, other CRS) x 4-5 chunkings incl. 1-pixel and non-dividing chunks x dtypes/nodata x optional leading time axis; threaded and synchronous schedulers", gen()
 
@@ -320,6 +323,29 @@ def _eq_oracle(args, run=None):
     else:
         dst_g = dsts[name]
     fails = []
+    if args.get("joint"):
+        cy, cx = args["src_chunks"]
+        lazy_src = xx.chunk({src_g.dimensions[0]: cy, src_g.dimensions[1]: cx})
+        base = dict(how=dst_g, resampling="nearest", dst_nodata=100, chunks=args["dst_chunks"])
+        other = dict(base)
+        v = args["joint"]
+        if v == "dst_nodata":
+            other["dst_nodata"] = 200
+        elif v == "src_nodata":
+            other["src_nodata"] = int(pix[0, 0])
+        elif v == "resampling":
+            other["resampling"] = "bilinear"
+        elif v == "dst_geobox":
+            other["how"] = dsts["aligned_shift"]
+        else:
+            other["chunks"] = (9, 4)
+        refs = [xx.odc.reproject(**cfg_) for cfg_ in ({k: w for k, w in c_.items() if k != "chunks"} for c_ in (base, other))]
+        lz = [lazy_src.odc.reproject(**c_) for c_ in (base, other)]
+        got = dask.compute(*lz)
+        for i, (g_, r_) in enumerate(zip(got, refs)):
+            if g_.shape != r_.shape or not np.array_equal(g_.values, r_.values, equal_nan=True):
+                fails.append(f"post:two lazy reprojections of one source differing only in {v}, evaluated in ONE graph, each equal their own in-memory result (result {i} differs)")
+        return fails
     ydim = 1 if args["time_axis"] else 0
     ref = xx.odc.reproject(dst_g, resampling="nearest")
     cy, cx = args["src_chunks"]
@@ -403,3 +429,54 @@ contract(
     native_samples=_eq_samples,
     native_oracle=_eq_oracle,
 )
+
+
+# ---- graph keys: two different reprojections never share task names ---------------------------------------------------------------
+
+
+def _lemma_graph_name():
+    """structural obligation on the source of _dask_rio_reproject: the token that makes the graph's task names
+    is fresh per call (uuid4) or a hash of EVERY input the result depends on"""
+    import ast
+
+    from .values_c import _crs_source  # noqa: F401  (same idiom: source of the tree under verification)
+
+    mod = repo(DK)
+    if symbolic():
+        from pyvc import shadow
+
+        src = shadow.LOADED_SOURCES[DK]
+    else:
+        import inspect
+
+        src = inspect.getsource(mod)
+    fn = [n for n in ast.parse(src).body if isinstance(n, ast.FunctionDef) and n.name == "_dask_rio_reproject"][0]
+    params = {a.arg for a in fn.args.args + fn.args.kwonlyargs} | ({fn.args.kwarg.arg} if fn.args.kwarg else set())
+    names = [n for n in ast.walk(fn) if isinstance(n, ast.Assign) and any(isinstance(t, ast.Name) and t.id == "name" for t in n.targets) and isinstance(n.value, ast.JoinedStr)]
+    claim(len(names) == 1, "the graph name is built in one place")
+    used = {x.id for x in ast.walk(names[0].value) if isinstance(x, ast.Name)}
+    tok_names = used - {"name"}
+    claim(len(tok_names) == 1, "... from the caller's name and one token")
+    tk = tok_names.pop()
+    defs = [n for n in ast.walk(fn) if isinstance(n, ast.Assign) and any(isinstance(t, ast.Name) and t.id == tk for t in n.targets)]
+    claim(len(defs) == 1, "the token is assigned once")
+    expr = ast.unparse(defs[0].value).replace(" ", "")
+    if expr == "uuid4().hex":
+        claim(True, "token is fresh per call (uuid4): no two calls share task names")
+        return
+    call = defs[0].value
+    is_tok = isinstance(call, ast.Call) and ast.unparse(call.func).split(".")[-1] == "tokenize"
+    claim(is_tok, f"token is uuid4().hex or a dask tokenize(...) of the inputs (found `{expr}`)")
+    mentioned = {x.id for a in call.args + [k.value for k in call.keywords] for x in ast.walk(a) if isinstance(x, ast.Name)}
+    # names derived inside the function from parameters: credit the parameters they are computed from
+    derived = {"gbt_src": {"s_gbox", "src"}, "gbt_dst": {"d_gbox", "chunks"}, "d2s_idx": {"s_gbox", "d_gbox", "chunks", "src"}, "dst_chunks": {"d_gbox", "chunks", "src"}, "dst_shape": {"d_gbox", "src"}}
+    covered = set(mentioned)
+    for k, v in derived.items():
+        if k in mentioned:
+            covered |= v
+    need = {"src", "s_gbox", "d_gbox", "resampling", "src_nodata", "dst_nodata", "ydim", "chunks"} | ({fn.args.kwarg.arg} if fn.args.kwarg else set())
+    missing = sorted((need & params) - covered)
+    claim(not missing, f"a content-based token covers every input the result depends on (not covered: {missing})")
+
+
+lemma("dask.graph_name_token", ["C13"], inputs=dict(), body=_lemma_graph_name, note="structural (AST) obligation on the tree under verification: two lazy reprojections that differ in any input never share dask task keys, so evaluating them in one graph cannot mix their results")
